@@ -165,6 +165,17 @@ PROVED_DETAIL = {
 def theorem_for(t):
     """which parse_render theorem of coq/props/C02.v covers template t (None = tested-only)"""
     if t[0] == "cf":
+        # ---- helper rdB: YYYYMMDD{T, }HHMMSS{.,}f (ParseSpec2.render_cf), k = 1..9
+        _, sp, k, cm, o = t
+        O = OFORMS[o]
+        if not 1 <= k <= 9:
+            return None
+        if O == "ONone":
+            return "C02_parse_render_compact_frac"
+        if O in ("OZ", "OUTC", "OGMT"):
+            return "C02_parse_render_compact_frac_utc_" + O
+        if O in ("OHH_MM", "OHH"):
+            return "C02_parse_render_compact_frac_offset_" + O
         return None
     kd, d, j, tf, k, fl, o = t
     if kd == 1:
@@ -191,6 +202,16 @@ def theorem_for(t):
                 return "C02_parse_render_frac_" + D
             if D in ("DDMonY", "DDMonthY", "DDashMon", "DMonDY", "DMonthDY", "DEUDot", "DEU") and J == "JSpace":
                 return "C02_parse_render_frac_" + D
+    # ---- helper rdB, batches 4-5
+    if D == "DNone" and J == "JNone" and T == "TFrac" and 1 <= k <= 9 and O == "ONone":
+        return "C02_parse_render_time_frac"
+    if O == "ONone" and J == "JSpace":
+        if D == "DMonDY" and T == "T12HMS" and not fl:
+            return "C02_parse_render_12h_DMonDY_T12HMS_nosp"
+        if D == "DMonthDY" and T == "T12HMS":
+            return "C02_parse_render_12h_DMonthDY_T12HMS_" + ("sp" if fl else "nosp")
+        if D in ("DDashMon", "DDMonY", "DDMonthY") and T == "T12HM":
+            return "C02_parse_render_12h_%s_T12HM" % D
     # ---- helper rdB, batch 3: time-only forms with zones, 12-hour clock after other date forms
     if D == "DNone" and J == "JNone" and T in ("THM", "THMS"):
         if O in ("OHH_MM", "OHH"):
@@ -475,7 +496,7 @@ def main():
             o["default"] = r.choice([(2003, 9, 25, 0, 0, 0, 0), (2001, 3, 30, 12, 34, 56, 789)])
             cases.append((o, s, t, dt, off, exp_dt, exp_off, tzname))
             wf_templates.add(tpl_name(t))
-            tpl_thm[tpl_name(t)] = None
+            tpl_thm[tpl_name(t)] = theorem_for(t)
         model = PC.run_model(orc, [(c[0], c[1]) for c in cases])
         # minimum stream size: under every TZ setting every template shape must have produced at least one
         # round trip (a broken render entry / generator would otherwise give a green run with nothing tested)
